@@ -486,6 +486,36 @@ func vfFixTimes(src, dst string, when time.Time) {
 // created files are comparable between a served tree and an os-driven twin.
 func syscallUmask() { syscall.Umask(0o022) }
 
+// vfSetEffective switches the effective uid/gid of EVERY thread of the process (the real and
+// saved ids stay 0, so the switch is reversible). It needs a binary built without cgo
+// (syscall.AllThreadsSyscall); it returns an error otherwise and the caller falls back to
+// privileged runs.
+func vfSetEffective(uid, gid int) error {
+	none := ^uintptr(0)
+	setu := func() error {
+		if _, _, e := syscall.AllThreadsSyscall(syscall.SYS_SETRESUID, none, uintptr(uid), none); e != 0 {
+			return e
+		}
+		return nil
+	}
+	setg := func() error {
+		if _, _, e := syscall.AllThreadsSyscall(syscall.SYS_SETRESGID, none, uintptr(gid), none); e != 0 {
+			return e
+		}
+		return nil
+	}
+	if uid == 0 { // regain the uid first, then the gid
+		if err := setu(); err != nil {
+			return err
+		}
+		return setg()
+	}
+	if err := setg(); err != nil {
+		return err
+	}
+	return setu()
+}
+
 func vfFirstDiff(a, b []byte) int {
 	n := len(a)
 	if len(b) < n {
